@@ -35,6 +35,7 @@ class Check(object):
         self.canaries = []           # (name, fn) scripts that must be refuted
         self.timeout = 30 if tier == 'quick' else 180
         self.uncontracted = {}
+        self.fallbacks = []          # bounded stand-ins run when the proof is incomplete
 
     def script(self, name, fn, functions=()):
         self.scripts.append((name, fn))
@@ -51,6 +52,12 @@ class Check(object):
         for i in ids:
             if i not in self.assumptions:
                 self.assumptions.append(i)
+
+    def fallback(self, name, fn, bound):
+        """fn() -> dict(reproduced=bool, ...): bounded search on the real code
+        (never counted as proved); run when some obligation is undecided, and
+        always in the thorough tier."""
+        self.fallbacks.append((name, fn, bound))
 
     def replayer(self, prefix, fn):
         self.replayers[prefix] = fn
@@ -169,8 +176,39 @@ class Check(object):
             lines.append('VIOLATION property=%s replay=%s%s' % (
                 self.prop, path, '' if reproduced else ' no-failing-input-found'))
             exit_code = 1
-        if exit_code == 0 and (unknown or aux_failed or self.undecided):
+        incomplete = bool(unknown or aux_failed or self.undecided)
+        if exit_code == 0 and (incomplete or self.tier == 'thorough'):
+            for name, fn, bound in self.fallbacks:
+                t1 = time.time()
+                try:
+                    out = fn()
+                except Exception:
+                    out = {'reproduced': False,
+                           'error': traceback.format_exc(limit=5)}
+                rec = {'name': name, 'bound': bound, 'level': 'bounded',
+                       'seconds': round(time.time() - t1, 1),
+                       'result': _jsonable(out),
+                       'why': 'proof incomplete' if incomplete else 'thorough tier'}
+                self.bounded.append(rec)
+                if out.get('reproduced'):
+                    os.makedirs(os.path.join(VERIF, 'replays'), exist_ok=True)
+                    path = os.path.join(VERIF, 'replays', '%s-%s.json' % (
+                        self.prop, name))
+                    with open(path, 'w') as f:
+                        json.dump({'property': self.prop,
+                                   'obligation': 'bounded stand-in ' + name,
+                                   'undecided': [u[:300] for u in self.undecided],
+                                   'failed_obligations': sorted(set(
+                                       r.ob.name for r in unknown + aux_failed)),
+                                   'replay': _jsonable(out), 'reproduced': True},
+                                  f, indent=1, default=str)
+                    lines.append('VIOLATION property=%s replay=%s' % (
+                        self.prop, path))
+                    exit_code = 1
+                    break
+        if exit_code == 0 and incomplete:
             exit_code = 2
+        self.n_violation_lines = sum(1 for l in lines if l.startswith('VIOLATION'))
         self.write_evidence([v[0] for v in violations], known_hits, unknown,
                             aux_failed)
         for l in lines:
@@ -253,7 +291,7 @@ class Check(object):
             'seed': self.seed,
             'level': 'proof',
             'wall_s': round(time.time() - self.t0, 2),
-            'violations': len(violations),
+            'violations': getattr(self, 'n_violation_lines', len(violations)),
             'assumptions': self.assumptions,
             'coverage': {
                 'obligations': n,
